@@ -36,7 +36,9 @@ def menus():
     dim("maxVersion", ("tls10", (3, 1), IN), ("tls12", (3, 3), IN),
         ("bad35", (3, 5), OUT), ("bad02", (0, 2), OUT))
     dim("versions", ("rev", [(3, 1), (3, 2), (3, 3), (3, 4)], IN),
-        ("only12", [(3, 3)], IN), ("dup", [(3, 4), (3, 4), (3, 3)], IN))
+        ("only12", [(3, 3)], IN), ("dup", [(3, 4), (3, 4), (3, 3)], IN),
+        ("unknown", [(9, 9)], OUT), ("tls14", [(3, 3), (3, 5)], OUT),
+        ("ssl2", [(2, 0), (3, 3)], OUT))
     dim("cipherNames", ("first", ["chacha20-poly1305"], IN),
         ("last", ["3des"], IN),
         ("rev", ["3des", "aes128", "aes256", "aes128ccm", "aes256ccm",
@@ -125,6 +127,12 @@ def menus():
     dim("certificate_compression_receive", ("none", [], IN),
         ("unknown", ["gzip"], OUT))
     dim("dc_valid_time", ("1d", 86400, IN), ("7d+1", 604801, OUT))
+    dim("dc_sig_algs", ("ed25519", [SignatureScheme.ed25519], IN),
+        ("ecdsa256", [SignatureScheme.ecdsa_secp256r1_sha256], IN),
+        # RFC 9345: rsaEncryption keys must not be used (documented)
+        ("rsae256", [SignatureScheme.rsa_pss_rsae_sha256], OUT),
+        ("mixed-rsae", [SignatureScheme.ed25519,
+                        SignatureScheme.rsa_pss_rsae_sha384], OUT))
     dim("sendFallbackSCSV", ("on", True, IN))
     return M
 
